@@ -201,6 +201,49 @@ CHECKS["C15"] = dict(
          "generated.",
 )
 
+CHECKS["C10"] = dict(
+    text=("Machine-checked theorems (Coq) over a statement-by-statement model of ServiceSelector / PortSelector / "
+          "MethodSelector (int vs name subscripts incl. negative indexes, default service/port options, "
+          "single-service passthrough), Service.do_resolve (non-SOAP ports dropped), Binding.add_operations "
+          "(soapAction quoting/default, style default), Definitions.add_methods (per-port method table) and "
+          "_SoapClient.__location/__headers: for ANY number of services, ports, bindings and operations and selector "
+          "expressions of ANY depth, what is sent satisfies the routing function written from the documented rules "
+          "(select_correct); with no hypothesis every request belongs to a declared service/port/binding/operation "
+          "(routed_request_is_declared); unknown names and out-of-range indexes raise ServiceNotFound / PortNotFound "
+          "/ MethodNotFound and never fall through; a location option changes the URL only, for that client only. "
+          "33k selections per quick run (300 WSDL shapes of 0..3 services x 0..3 ports over 2 bindings + non-SOAP "
+          "ports, all expressions of depth <= 2, a slice of depth 3, option settings, set_options/clone histories) "
+          "are observed through a recording transport (URL, SOAPAction, Body root) and compared inside Coq; the "
+          "thorough tier enumerates all 65,641 shapes and 1.05M selections."),
+    design="DESIGN.md §5 C10",
+    technique="Coq proof (selectors = routing specification for all WSDL skeletons and expressions) + exhaustive "
+              "small-scope correspondence",
+    note="WSDL/XSD parsing up to the method table and the rest of marshalling are covered by correspondence only.",
+)
+
+CHECKS["C12"] = dict(
+    text=("Machine-checked theorems (Coq) over a model of the document loaders (DocumentReader.open/__fetch with "
+          "policy-0 cache, store before transport; DefinitionsReader; Definitions.__init__ with the per-load memo "
+          "registered before recursing, wsdl.Import.load/import_definitions/import_schema, build_schema; "
+          "SchemaCollection/Schema.open_imports, Import/Include open, locate, download, chameleon include) over an "
+          "abstract document world: for EVERY finite document graph (cycles, self-imports, diamonds, relative and "
+          "absolute locations), store/transport split, caching policy and cache state the load terminates "
+          "(potential-function argument, fuel never exhausted), every transport request directly follows a store "
+          "miss for the same URL, each memo domain fetches a URL at most once, WSDL-level fetches are reachable "
+          "from the root, the cache only ever holds complete documents, a warm cache is transparent, and for every "
+          "k a fault at the k-th fetch makes construction fail, caches no WSDL object, leaves the cache sound and a "
+          "healthy retry equals a clean load. ~4.7k client constructions per quick run (all graphs on 1-2 documents, "
+          "sampled 3-document graphs, 130 interface partitions into 1-6 documents, every fetch faulted in turn) are "
+          "compared with the model on outcome, exact request sequence and cache contents. Four departures of the "
+          "code (wsdl:import of an .xsd; import cycles) are refuted/guarded and listed as known findings."),
+    design="DESIGN.md §5 C12",
+    technique="Coq proof (termination by potential function, invariants over the loader's request log, relational "
+              "lemma for two openers) + in-Coq differential correspondence with fault injection",
+    note="urljoin is modelled for hierarchical http(s) URLs only; declarations, resolve, set_wrapped, add_methods and "
+         "the fingerprint equality with the single-document client (partition_equivalent) are covered by "
+         "correspondence only; the schema-level reachable-only statement is executed per case, not proved.",
+)
+
 PENDING = {}
 
 
